@@ -203,23 +203,25 @@ func decodeKeyCharByUnicodeRune(buf []byte, cursor int64) ([]byte, int64, error)
 func decodeKeyCharByEscapedChar(buf []byte, cursor int64) ([]byte, int64, error) {
 	c := buf[cursor]
 	cursor++
+	// like decodeKeyCharByUnicodeRune, return the position of the LAST character of
+	// the escape sequence: the caller steps over it
 	switch c {
 	case '"':
-		return []byte{'"'}, cursor, nil
+		return []byte{'"'}, cursor - 1, nil
 	case '\\':
-		return []byte{'\\'}, cursor, nil
+		return []byte{'\\'}, cursor - 1, nil
 	case '/':
-		return []byte{'/'}, cursor, nil
+		return []byte{'/'}, cursor - 1, nil
 	case 'b':
-		return []byte{'\b'}, cursor, nil
+		return []byte{'\b'}, cursor - 1, nil
 	case 'f':
-		return []byte{'\f'}, cursor, nil
+		return []byte{'\f'}, cursor - 1, nil
 	case 'n':
-		return []byte{'\n'}, cursor, nil
+		return []byte{'\n'}, cursor - 1, nil
 	case 'r':
-		return []byte{'\r'}, cursor, nil
+		return []byte{'\r'}, cursor - 1, nil
 	case 't':
-		return []byte{'\t'}, cursor, nil
+		return []byte{'\t'}, cursor - 1, nil
 	case 'u':
 		return decodeKeyCharByUnicodeRune(buf, cursor)
 	}
@@ -248,14 +250,13 @@ func decodeKeyByBitmapUint8(d *structDecoder, buf []byte, cursor int64) (int64, 
 			}
 			keyIdx := 0
 			bitmap := d.keyBitmapUint8
-			start := cursor
 			for {
 				c := char(b, cursor)
 				switch c {
 				case '"':
 					fieldSetIndex := bits.TrailingZeros8(curBit)
 					field := d.sortedFieldSets[fieldSetIndex]
-					keyLen := cursor - start
+					keyLen := int64(keyIdx) // the decoded length: an escape sequence is longer than the character it stands for
 					cursor++
 					if keyLen < field.keyLen {
 						// early match
@@ -314,14 +315,13 @@ func decodeKeyByBitmapUint16(d *structDecoder, buf []byte, cursor int64) (int64,
 			}
 			keyIdx := 0
 			bitmap := d.keyBitmapUint16
-			start := cursor
 			for {
 				c := char(b, cursor)
 				switch c {
 				case '"':
 					fieldSetIndex := bits.TrailingZeros16(curBit)
 					field := d.sortedFieldSets[fieldSetIndex]
-					keyLen := cursor - start
+					keyLen := int64(keyIdx) // the decoded length: an escape sequence is longer than the character it stands for
 					cursor++
 					if keyLen < field.keyLen {
 						// early match
@@ -436,7 +436,7 @@ func decodeKeyByBitmapUint8Stream(d *structDecoder, s *Stream) (*structFieldSet,
 				case '"':
 					fieldSetIndex := bits.TrailingZeros8(curBit)
 					field := d.sortedFieldSets[fieldSetIndex]
-					keyLen := cursor - start
+					keyLen := int64(keyIdx) // the decoded length: an escape sequence is longer than the character it stands for
 					cursor++
 					s.cursor = cursor
 					if keyLen < field.keyLen {
@@ -525,7 +525,7 @@ func decodeKeyByBitmapUint16Stream(d *structDecoder, s *Stream) (*structFieldSet
 				case '"':
 					fieldSetIndex := bits.TrailingZeros16(curBit)
 					field := d.sortedFieldSets[fieldSetIndex]
-					keyLen := cursor - start
+					keyLen := int64(keyIdx) // the decoded length: an escape sequence is longer than the character it stands for
 					cursor++
 					s.cursor = cursor
 					if keyLen < field.keyLen {
